@@ -64,15 +64,11 @@ Qed.
 
 Record Inv (s : st) : Prop := {
   k_cancel_inst : forall i c k, cancel s i = Some c -> tree_of k = i -> inst s k <> IActive;
-  k_cancel_hit : forall i c k, cancel s i = Some c -> In k (hits s) -> tree_of k <> i;
   k_active : forall k, inst s k = IActive -> trees s (tree_of k) = TPresent;
-  k_hit : forall k, In k (hits s) -> trees s (tree_of k) = TPresent;
-  k_known : forall k, inst s k <> INone -> In k (known s);
-  k_window : length (hits s) <= 1;
-  k_grace : forall i c, cancel s i = Some c -> trees s i = TPresent }.
+  k_known : forall k, inst s k <> INone -> In k (known s) }.
 
 Lemma Inv_init : Inv init.
-Proof. constructor; cbn; intros; try discriminate; try tauto; try congruence; lia. Qed.
+Proof. constructor; cbn; intros; try discriminate; try tauto; try congruence. Qed.
 
 Definition good (fx : fixes) : Prop := f12 fx = true /\ f13 fx = true /\ f27 fx = true.
 
@@ -90,15 +86,12 @@ Ltac upd_cases :=
   end.
 
 Lemma remove_tree_inv s i :
-  Inv s -> (forall k, tree_of k = i -> inst s k <> IActive) -> hits s = [] ->
-  trees s i = TPresent -> Inv (remove_tree s i).
+  Inv s -> (forall k, tree_of k = i -> inst s k <> IActive) -> Inv (remove_tree s i).
 Proof.
-  intros [H1 H2 H3 H4 H5 H6 H7] Hna Hh Hp. unfold remove_tree.
+  intros [H1 H3 H5] Hna. unfold remove_tree.
   destruct (cancel s i) eqn:Ec; [constructor; auto|].
   constructor; cbn; auto.
-  - intros j c k Hc Hk. upd_cases; eauto.
-  - intros j c k Hc Hin. rewrite Hh in Hin. destruct Hin.
-  - intros j c Hc. upd_cases; eauto.
+  intros j c k Hc Hk. upd_cases; eauto.
 Qed.
 
 Local Arguments in_use : simpl never.
@@ -106,12 +99,11 @@ Local Arguments remove_tree : simpl never.
 
 Lemma step_inv fx s a s' : good fx -> Inv s -> step fx s a = Some s' -> Inv s'.
 Proof.
-  intros (G12 & G13 & G27) I H. pose proof I as [H1 H2 H3 H4 H5 H6 H7].
+  intros (G12 & G13 & G27) I H. pose proof I as [H1 H3 H5].
   destruct a; cbn [step] in H.
   - (* LocalTree *)
     inversion H; subst; clear H. constructor; cbn; auto; intros; upd_cases; eauto; try discriminate.
   - (* LocalCreate *)
-    destruct (window_busy fx s); [discriminate|].
     destruct (inst s k) eqn:Ek; try discriminate. inversion H; subst; clear H.
     constructor; cbn; auto; intros; upd_cases; eauto; try discriminate; try congruence.
     + apply add_known_In. auto.
@@ -121,39 +113,27 @@ Proof.
     constructor; cbn; auto; intros; upd_cases; eauto; try discriminate; try congruence.
     + apply H5. congruence.
   - (* MsgLookup *)
-    unfold window_busy in H. rewrite G27 in H. cbn in H.
-    destruct (hits s) eqn:Eh; [|discriminate].
     destruct (trees s (tree_of k)) eqn:Et; inversion H; subst; clear H;
-      constructor; cbn; auto; intros; upd_cases; eauto; try discriminate; try congruence;
-      try (rewrite Eh in *; cbn in *; try tauto; try lia).
-    all: try (match goal with H : _ \/ False |- _ => destruct H as [<-|[]] end; congruence).
+      constructor; cbn; auto; intros; upd_cases; eauto; try discriminate; try congruence.
   - (* MsgDeliver *)
-    destruct (mem_tok k (hits s)) eqn:Em; [|discriminate]. cbn in H. apply mem_tok_In in Em.
-    assert (Hlen : hits s = [k]).
-    { destruct (hits s) as [|x [|y r]] eqn:Eh; cbn in *; try tauto; try lia. destruct Em as [->|[]]. reflexivity. }
-    assert (Hrem : remove_tok k (hits s) = []).
-    { rewrite Hlen. cbn. now rewrite tok_eqb_refl. }
-    rewrite Hrem in H.
+    destruct (mem_tok k (hits s)) eqn:Em; [|discriminate]. cbn in H.
     destruct (inst s k) eqn:Ek; try discriminate.
-    + (* none: create *)
-      inversion H; subst; clear H.
-      constructor; cbn; auto; intros; upd_cases; eauto; try discriminate; try congruence; try tauto; try lia.
-      * intros _. eapply (H2 (tree_of k) c k); eauto.
+    + (* none: create, and with the repair store the tree again *)
+      rewrite G27 in H. inversion H; subst; clear H.
+      constructor; cbn; auto; intros; upd_cases; eauto; try discriminate; try congruence; try tauto.
       * apply add_known_In; auto.
       * apply add_known_In; right; apply H5; assumption.
     + (* active *)
       inversion H; subst; clear H.
-      constructor; cbn; auto; intros; try tauto; try lia.
+      constructor; cbn; auto.
     + (* done: drop, possibly re-arm *)
-      set (s1 := mkSt (trees s) (cancel s) (chclosed s) (timers s) (inst s) (known s) (created s) []
+      set (s1 := mkSt (trees s) (cancel s) (chclosed s) (timers s) (inst s) (known s) (created s) (remove_tok k (hits s))
                       (misses s) (regs s) (delivered s) (answers s) (next s)) in *.
-      assert (I1 : Inv s1).
-      { constructor; cbn; auto; intros; try tauto; try lia. }
+      assert (I1 : Inv s1) by (constructor; cbn; auto).
       destruct (f28 fx && negb (in_use s1 (tree_of k))) eqn:Eb; inversion H; subst; clear H; auto.
       apply andb_true_iff in Eb as [_ Eb]. apply negb_true_iff in Eb.
       apply remove_tree_inv; auto.
-      * intros k' Hk'. apply (in_use_false s1 (tree_of k)); auto.
-      * cbn. apply H4. assumption.
+      intros k' Hk'. apply (in_use_false s1 (tree_of k)); auto.
   - (* MissCheck *)
     destruct (mem_nat i (misses s)); [|discriminate]. cbn in H.
     destruct (trees s i); inversion H; subst; clear H; constructor; cbn; auto.
@@ -161,25 +141,20 @@ Proof.
     destruct (mem_nat i (regs s)); [|discriminate]. cbn in H. rewrite G13 in H. cbn in H.
     destruct (trees s i) eqn:Et; inversion H; subst; clear H;
       constructor; cbn; auto; intros; upd_cases; eauto; try congruence.
-    all: try (match goal with Hc : cancel _ ?i = Some _ |- _ => pose proof (H7 _ _ Hc); congruence end).
     all: try (match goal with Ha : inst _ ?k = IActive |- _ => pose proof (H3 _ Ha); congruence end).
-    all: try (match goal with Ha : In ?k (hits _) |- _ => pose proof (H4 _ Ha); congruence end).
   - (* TreeArrive *)
     destruct (trees s i) eqn:Et; inversion H; subst; clear H; auto;
       constructor; cbn; auto; intros; upd_cases; eauto; try discriminate; try congruence.
   - (* Done *)
-    unfold window_busy in H. rewrite G27 in H. cbn in H.
-    destruct (hits s) eqn:Eh; [|discriminate].
     destruct (inst s k) eqn:Ek; try discriminate.
     set (s1 := mkSt (trees s) (cancel s) (chclosed s) (timers s) (updk (inst s) k IDone) (known s) (created s)
-                    [] (misses s) (regs s) (delivered s) (answers s) (next s)) in *.
+                    (hits s) (misses s) (regs s) (delivered s) (answers s) (next s)) in *.
     assert (I1 : Inv s1).
-    { constructor; cbn; auto; intros; upd_cases; eauto; try discriminate; try congruence; try tauto; try lia.
+    { constructor; cbn; auto; intros; upd_cases; eauto; try discriminate; try congruence; try tauto.
       apply H5. congruence. }
     destruct (in_use s1 (tree_of k)) eqn:Eu; inversion H; subst; clear H; auto.
     apply remove_tree_inv; auto.
-    + intros k' Hk'. apply (in_use_false s1 (tree_of k)); auto. apply (k_known s1 I1).
-    + cbn. apply H3. assumption.
+    intros k' Hk'. apply (in_use_false s1 (tree_of k)); auto. apply (k_known s1 I1).
   - (* TimerFire *)
     destruct (find_timer c (timers s)) as [[c' i' [|]]|]; try discriminate.
     inversion H; subst; clear H. constructor; cbn; auto.
@@ -193,8 +168,7 @@ Proof.
     destruct (cancel s i') as [c''|] eqn:Ec; cbn in H.
     + destruct (Nat.eqb_spec c'' c); cbn in H; inversion H; subst; clear H.
       * constructor; cbn; auto; intros; upd_cases; eauto; try discriminate; try congruence.
-        -- exfalso. eapply H1; eauto.
-        -- exfalso. eapply H2; eauto.
+        exfalso. eapply H1; eauto.
       * constructor; cbn; auto.
     + inversion H; subst; clear H. constructor; cbn; auto.
   - (* ReqTree *)
@@ -212,20 +186,148 @@ Qed.
 (* ---- statements used by Properties/C11.v ----------------------------------- *)
 
 Lemma tree_while_used fx acts s k :
-  good fx -> run fx init acts = Some s ->
-  (inst s k = IActive \/ In k (hits s)) -> trees s (tree_of k) = TPresent.
+  good fx -> run fx init acts = Some s -> inst s k = IActive -> trees s (tree_of k) = TPresent.
 Proof.
-  intros G H [Ha|Hh]; pose proof (run_inv fx acts init s G Inv_init H) as I.
-  - now apply (k_active s I).
-  - now apply (k_hit s I).
+  intros G H Ha. pose proof (run_inv fx acts init s G Inv_init H) as I. now apply (k_active s I).
 Qed.
 
-Lemma tree_during_grace fx acts s i c s' :
-  good fx -> run fx init acts = Some s -> cancel s i = Some c ->
-  step fx s (ReqTree i) = Some s' -> hd_error (answers s') = Some (i, true).
+(* the grace period: from the moment a removal (channel c) is scheduled on a stored tree until
+   that very removal is cancelled or carried out, the tree stays stored *)
+Definition Fresh (s : st) : Prop := forall i c, cancel s i = Some c -> c < next s.
+
+Lemma Fresh_init : Fresh init.
+Proof. intros i c H. discriminate. Qed.
+
+Lemma remove_tree_fresh s i : Fresh s -> Fresh (remove_tree s i).
 Proof.
-  intros G H Hc Hs. pose proof (run_inv fx acts init s G Inv_init H) as I.
-  cbn in Hs. inversion Hs; subst; clear Hs. cbn. now rewrite (k_grace s I i c Hc).
+  intros F. unfold remove_tree. destruct (cancel s i) eqn:Ec; [exact F|].
+  intros j c Hc. cbn in *. unfold upd in Hc. destruct (Nat.eqb_spec j i).
+  - inversion Hc; subst. lia.
+  - apply F in Hc. lia.
+Qed.
+
+Lemma step_fresh fx s a s' : Fresh s -> step fx s a = Some s' -> Fresh s'.
+Proof.
+  intros F H.
+  destruct a; cbn [step] in H;
+    repeat match type of H with
+    | (if ?b then _ else _) = _ => destruct b eqn:?; try discriminate
+    | match ?x with _ => _ end = _ => destruct x eqn:?; try discriminate
+    end;
+    inversion H; subst; clear H;
+    try (apply remove_tree_fresh);
+    intros j c0 Hc; cbn in Hc |- *; try (destruct (f27 fx); cbn in Hc); unfold cancel_deletion, upd in Hc;
+    repeat match type of Hc with
+    | (if ?b then _ else _) = _ => destruct b eqn:?; try discriminate
+    end; try (apply F in Hc; cbn; lia).
+Qed.
+
+Lemma run_fresh fx acts : forall s s', Fresh s -> run fx s acts = Some s' -> Fresh s'.
+Proof.
+  induction acts as [|a r IH]; intros s s' F H; cbn in H.
+  - now inversion H; subst.
+  - destruct (step fx s a) as [s1|] eqn:E; [|discriminate]. eapply IH; [eapply step_fresh; eauto|exact H].
+Qed.
+
+Definition Grace (i c : nat) (s : st) : Prop :=
+  c < next s /\ (cancel s i = Some c -> trees s i = TPresent).
+
+Lemma remove_tree_grace s i c j : Grace i c s -> Grace i c (remove_tree s j).
+Proof.
+  intros [Hn Hg]. unfold remove_tree. destruct (cancel s j) eqn:Ec; [split; auto|].
+  split; cbn; [lia|]. unfold upd. destruct (Nat.eqb_spec i j); [|exact Hg].
+  intros E. inversion E. lia.
+Qed.
+
+Lemma step_grace fx s a s' i c :
+  f12 fx = true -> f13 fx = true -> Grace i c s -> step fx s a = Some s' -> Grace i c s'.
+Proof.
+  intros G12 G13 [Hn Hg] H.
+  destruct a; cbn [step] in H.
+  - inversion H; subst; clear H. split; cbn; auto. unfold cancel_deletion, upd.
+    destruct (Nat.eqb_spec i i0); [discriminate|auto].
+  - destruct (inst s k); try discriminate. inversion H; subst; clear H. split; cbn; auto.
+  - destruct (inst s k); try discriminate. inversion H; subst; clear H. split; cbn; auto.
+    unfold cancel_deletion, upd. destruct (Nat.eqb_spec i (tree_of k)); [discriminate|auto].
+  - destruct (trees s (tree_of k)) eqn:Et; inversion H; subst; clear H; split; cbn; auto;
+      unfold cancel_deletion, upd; destruct (Nat.eqb_spec i (tree_of k)); try discriminate; auto.
+  - destruct (mem_tok k (hits s)); [|discriminate]. cbn in H.
+    destruct (inst s k); try discriminate.
+    + inversion H; subst; clear H. split; cbn; auto.
+      destruct (f27 fx); cbn; auto. unfold cancel_deletion, upd.
+      destruct (Nat.eqb_spec i (tree_of k)); [discriminate|auto].
+    + inversion H; subst; clear H. split; cbn; auto.
+    + match type of H with (if ?b then _ else _) = _ => destruct b end; inversion H; subst; clear H.
+      * apply remove_tree_grace. split; cbn; auto.
+      * split; cbn; auto.
+  - destruct (mem_nat i0 (misses s)); [|discriminate]. cbn in H.
+    destruct (trees s i0); inversion H; subst; clear H; split; cbn; auto.
+  - destruct (mem_nat i0 (regs s)); [|discriminate]. cbn in H. rewrite G13 in H. cbn in H.
+    inversion H; subst; clear H. split; cbn; auto. intros Hc. specialize (Hg Hc).
+    destruct (trees s i0) eqn:Et; cbn; auto; unfold upd; destruct (Nat.eqb_spec i i0); subst; auto; congruence.
+  - destruct (trees s i0) eqn:Et; inversion H; subst; clear H; try (split; cbn; auto; fail).
+    split; cbn; auto. unfold cancel_deletion, upd. destruct (Nat.eqb_spec i i0); [discriminate|auto].
+  - destruct (inst s k); try discriminate.
+    match type of H with (if ?b then _ else _) = _ => destruct b end; inversion H; subst; clear H.
+    + split; cbn; auto.
+    + apply remove_tree_grace. split; cbn; auto.
+  - destruct (find_timer c0 (timers s)) as [[c' i' [|]]|]; try discriminate.
+    inversion H; subst; clear H. split; cbn; auto.
+  - destruct (find_timer c0 (timers s)) as [[c' i' [|]]|]; try discriminate.
+    destruct (mem_nat c0 (chclosed s)); [|discriminate].
+    inversion H; subst; clear H. split; cbn; auto.
+  - destruct (find_timer c0 (timers s)) as [[c' i' [|]]|]; try discriminate.
+    rewrite G12 in H. cbn in H.
+    destruct (cancel s i') as [c''|] eqn:Ec; cbn in H.
+    + destruct (Nat.eqb_spec c'' c0); cbn in H; inversion H; subst; clear H.
+      * split; cbn; auto. unfold upd. destruct (Nat.eqb_spec i i'); [discriminate|auto].
+      * split; cbn; auto.
+    + inversion H; subst; clear H. split; cbn; auto.
+  - inversion H; subst; clear H. split; cbn; auto.
+Qed.
+
+Lemma run_grace fx acts i c : forall s s',
+  f12 fx = true -> f13 fx = true -> Grace i c s -> run fx s acts = Some s' -> Grace i c s'.
+Proof.
+  induction acts as [|a r IH]; intros s s' G12 G13 Gr H; cbn in H.
+  - now inversion H; subst.
+  - destruct (step fx s a) as [s1|] eqn:E; [|discriminate].
+    apply (IH s1 s' G12 G13); [eapply step_grace; eauto|exact H].
+Qed.
+
+(* the last instance on a tree declares itself done in a reachable state: a removal is scheduled,
+   and for as long as that removal stays scheduled -- whatever else happens on the server --
+   the tree is stored and peers asking for it get it *)
+Lemma tree_during_grace fx acts s k s1 :
+  good fx -> run fx init acts = Some s -> step fx s (Done k) = Some s1 -> in_use s1 (tree_of k) = false ->
+  exists c, cancel s1 (tree_of k) = Some c /\
+    forall acts2 s2, run fx s1 acts2 = Some s2 -> cancel s2 (tree_of k) = Some c ->
+      trees s2 (tree_of k) = TPresent /\
+      forall s3, step fx s2 (ReqTree (tree_of k)) = Some s3 -> hd_error (answers s3) = Some (tree_of k, true).
+Proof.
+  intros G H Hd Hu. pose proof G as (G12 & G13 & G27).
+  pose proof (run_inv fx acts init s G Inv_init H) as I.
+  pose proof (run_fresh fx acts init s Fresh_init H) as F.
+  assert (I1 : Inv s1) by (eapply step_inv; eauto).
+  assert (F1 : Fresh s1) by (eapply step_fresh; eauto).
+  assert (Hp : trees s1 (tree_of k) = TPresent).
+  { cbn [step] in Hd. destruct (inst s k) eqn:Ek; try discriminate.
+    pose proof (k_active s I k Ek) as Hp.
+    match type of Hd with (if ?b then _ else _) = _ => destruct b end; inversion Hd; subst; clear Hd; cbn; auto.
+    unfold remove_tree. destruct (cancel _ _); cbn; auto. }
+  assert (Hc : exists c, cancel s1 (tree_of k) = Some c).
+  { cbn [step] in Hd. destruct (inst s k) eqn:Ek; try discriminate.
+    match type of Hd with (if ?b then _ else _) = _ => destruct b eqn:Eb end; inversion Hd; subst; clear Hd.
+    - unfold in_use in *. cbn in *. congruence.
+    - unfold remove_tree. cbn. destruct (cancel s (tree_of k)) eqn:Ec; cbn.
+      + exists n. now rewrite Ec.
+      + exists (next s). unfold upd. now rewrite Nat.eqb_refl. }
+  destruct Hc as [c Hc]. exists c. split; [exact Hc|].
+  intros acts2 s2 H2 Hc2.
+  assert (Gr : Grace (tree_of k) c s2).
+  { eapply run_grace; eauto. split; [now apply (F1 _ _ Hc)|auto]. }
+  destruct Gr as [_ Gr]. specialize (Gr Hc2). split; [exact Gr|].
+  intros s3 Hs. cbn in Hs. inversion Hs; subst; clear Hs. cbn. now rewrite Gr.
 Qed.
 
 Definition ndelivered (s : st) (k : tok) : nat := length (filter (tok_eqb k) (delivered s)).
@@ -269,7 +371,6 @@ Lemma done_local fx s k s' k' :
   inst s' k' = inst s k' /\ created s' k' = created s k' /\ ndelivered s' k' = ndelivered s k'.
 Proof.
   intros H Hne. unfold ndelivered. cbn [step] in H.
-  destruct (window_busy fx s); [discriminate|].
   destruct (inst s k) eqn:Ek; try discriminate.
   match type of H with (if ?b then _ else _) = _ => destruct b end;
     inversion H; subst; clear H; unfold remove_tree; cbn;
@@ -284,7 +385,6 @@ Lemma done_schedules_removal fx s k s' :
             (cancel s (tree_of k) = Some c \/ find_timer c (timers s') = Some (mkTimer c (tree_of k) Armed)).
 Proof.
   intros H Hu. cbn [step] in H.
-  destruct (window_busy fx s); [discriminate|].
   destruct (inst s k) eqn:Ek; try discriminate.
   match type of H with (if ?b then _ else _) = _ => destruct b eqn:Eb end; inversion H; subst; clear H.
   - unfold in_use in *. cbn in *. congruence.
@@ -339,6 +439,22 @@ Proof.
   exists [LocalCreate ka; LocalSet ka; MsgLookup kb; Done ka; MsgDeliver kb; TimerFire 0; TimerDelete 0].
   eexists. split; [vm_compute; reflexivity|]. split; reflexivity.
 Qed.
+
+(* ... and with the repair the same schedule keeps the tree: the registration of the new
+   instance stored it again and cancelled the removal, whose timer then changes nothing *)
+Lemma remove_after_lookup_repaired :
+  exists s, run all_fixed init [LocalCreate ka; LocalSet ka; MsgLookup kb; Done ka; MsgDeliver kb; TimerFire 0; TimerDelete 0] = Some s /\
+            inst s kb = IActive /\ trees s (tree_of kb) = TPresent /\ cancel s (tree_of kb) = None /\ timers s = [].
+Proof. eexists. split; [vm_compute; reflexivity|]. repeat split. Qed.
+
+(* why the grace-period theorem speaks about the removal that a Done scheduled: a late message
+   for a finished run whose lookup still found the tree re-arms a removal when it is dropped
+   (F28), and by then the tree may already have been released through another run *)
+Example rearm_on_released_tree :
+  exists s c, run all_fixed init [LocalCreate ka; LocalSet ka; Done ka; MsgLookup ka; LocalCreate kb; LocalSet kb;
+                                  Done kb; TimerFire 1; TimerDelete 1; MsgDeliver ka] = Some s /\
+              cancel s 0 = Some c /\ trees s 0 = TAbsent /\ in_use s 0 = false.
+Proof. eexists. eexists. split; [vm_compute; reflexivity|]. repeat split. Qed.
 
 (* F28: a late message for the finished run cancels the removal for good *)
 Lemma late_message_leak_refuted :
